@@ -142,14 +142,47 @@ def rule_i_order(ctx):
             continue
         inner = [c for c in ctx.calls(b) if c.method == "next" and not b.is_cleanup(c.loc.bb)]
         fields = set()
+        # locals that hold the inner iterator's Option (directly, or as the ControlFlow produced by `?`)
+        holds = set()
+        if inner:
+            holds.add(inner[0].dest["local"])
+            for c in ctx.calls(b):
+                if (c.name or "").endswith("Try::branch") and c.args and b.op_path(c.args[0]) is not None and b.op_path(c.args[0]).root in holds and c.dest:
+                    holds.add(c.dest["local"])
         for loc, st in b.all_assigns():
             if st["place"]["local"] == 0 and st["rv"]["k"] == "aggregate" and st["rv"].get("variant") == "Some":
                 q = b.op_path(st["rv"]["ops"][0])
-                if q is not None and inner and q.root == inner[0].dest["local"]:
-                    tf = [e for e in q.elems if e[0] == "field" and e[1] == "tuple"]
-                    # payload .0 (Some) then tuple field
+                if q is not None and q.root in holds:
+                    # payload .0 (Some / Continue) then tuple field
                     idxs = [e[2] for e in q.elems if e[0] == "field"]
                     fields.add(tuple(idxs))
+                else:
+                    fields.add(("?",))
+        # inner.next().map(f): f projects its argument
+        for c in ctx.calls(b):
+            if c.name == "core::option::Option::map" and c.dest and c.dest["local"] == 0 and not c.dest["proj"] and not b.is_cleanup(c.loc.bb):
+                src = b.op_path(c.args[0])
+                fb, param = None, None
+                cbs = c.closure_args()
+                if cbs:
+                    fb, param = cbs[0], 2
+                elif len(c.args) > 1 and c.args[1]["k"] == "const" and c.args[1].get("fn"):
+                    from engine import strip_generics
+                    fb = next((x for x in ctx.facts.bodies.values() if strip_generics(x.path) == strip_generics(c.args[1]["fn"])), None)
+                    param = 1
+                if src is None or src.root not in holds or fb is None:
+                    fields.add(("?",))
+                    continue
+                rets = set()
+                for rb in fb.return_blocks():
+                    for d in fb.defs_reaching(Loc(rb, len(fb.stmts(rb))), 0):
+                        if d[3] == "assign" and d[4]["rv"]["k"] == "use" and d[4]["rv"]["op"]["k"] in ("copy", "move"):
+                            q = fb.op_path(d[4]["rv"]["op"])
+                            if q is not None and q.root == param:
+                                rets.add((0,) + tuple(e[2] for e in q.elems if e[0] == "field"))
+                                continue
+                        rets.add(("?",))
+                fields |= rets or {("?",)}
         ok = fields == {(0, proj)}
         R.inst(adt=adt, projects=sorted(fields), expected=(0, proj), verdict="ok" if ok else "VIOLATION")
         if not ok:
